@@ -18,6 +18,12 @@ def mk_cases(kind):
             cs.append({'CFG': cfg, 'MODE': 0, 'OP': 1, 'OPC': 0, 'LEN': 0, 'K': 0})
             if cfg in (6, 9):
                 cs.append({'CFG': cfg, 'MODE': 0, 'OP': 2, 'OPC': 0, 'LEN': 0, 'K': 0})
+        if tier == 'quick' and kind in (1, 2):
+            # numeric comparison with asynchronous user confirmation (cfg 6 / 9): the poll and the user answer from every state,
+            # i.e. the second place where a LESC pairing completes and stores its key
+            cfg = 6 if kind == 1 else 9
+            cs.append({'CFG': cfg, 'MODE': 0, 'OP': 1, 'OPC': 0, 'LEN': 0, 'K': 0})
+            cs.append({'CFG': cfg, 'MODE': 0, 'OP': 2, 'OPC': 0, 'LEN': 0, 'K': 0})
         return env_filter(cs + history_cases(cfgs, K[tier][kind]))
     return cases
 
@@ -30,8 +36,8 @@ PROPERTY = Property(
     [Harness('c33_sm_legacy', SM_LEGACY, 'harness/c33_sm.c', mk_cases(0),
              description='legacy manager: find_key(EDIV, Rand) before and after one step from every pairing state, and after every operation of bounded histories from reset',
              bounds='cfg 0..4 (quick: 1, 4 = with bond data base); histories K=4 / 6', **COMMON),
-     Harness('c33_sm_lesc', SM_LESC, 'harness/c33_sm.c', mk_cases(1), description='LESC manager: same', bounds='cfg 5..7 (quick: 7 = with bond data base); histories K=2 / 5', **COMMON),
-     Harness('c33_sm_comb', SM_COMB, 'harness/c33_sm.c', mk_cases(2), description='combined manager: same', bounds='cfg 8..11 (quick: 10 = with bond data base); histories K=2 / 5', **COMMON)],
+     Harness('c33_sm_lesc', SM_LESC, 'harness/c33_sm.c', mk_cases(1), description='LESC manager: same', bounds='cfg 5..7 (quick: 7 = with bond data base, plus poll / user answer steps of cfg 6 = numeric comparison); histories K=2 / 5', **COMMON),
+     Harness('c33_sm_comb', SM_COMB, 'harness/c33_sm.c', mk_cases(2), description='combined manager: same', bounds='cfg 8..11 (quick: 10 = with bond data base, plus poll / user answer steps of cfg 9 = numeric comparison); histories K=2 / 5', **COMMON)],
     functions=['details::legacy_security_connection_data::find_key', 'details::lesc_security_connection_data::find_key', 'details::security_connection_data::find_key',
                'bonding_data_base::bonding_db_data_t::find_key', 'legacy_pairing_completed / lesc_pairing_completed (key stored)', 'the pairing handlers of C32 (they decide when a pairing is completed)'],
     bounds='12 manager configurations; EDIV / Rand symbolic (with 0 / 0 forced in a symbolic subset); step: every pairing state with symbolic key material x one PDU / poll / user answer; histories from reset of 4 / 6 operations (legacy), 2 / 5 operations (LESC, combined) in quick / thorough',
